@@ -112,3 +112,142 @@ Theorem C02_filter_match_is_the_source : forall f x,
   leaf_filter_match x (b2z (f_strict f)) (f_pat f) (b2z (f_invert f)) = b2z (accepts f x).
 Proof. exact C02_LeafTie.C02_filter_match_is_the_source. Qed.
 Print Assumptions C02_filter_match_is_the_source.
+
+(* --------------------------------------------------------------------------------------------------------------
+   The list and array code of the model IS the source: UtestShell::getNext / addTest / countTests, UtestShellPointerArray::swap / get / getFirstTest / relinkTestsInOrder / reverse / shuffle and TestRegistry::addTest / getFirstTest / getTestWithNext / countTests as tools/cxx2heap.py regenerates them from Utest.cpp and TestRegistry.cpp on every run (gen/Gen_HeapC02.v; shells are heap blocks linked by next_, the array object holds a pointer to its cell block; PlatformSpecificRand() takes the next value of the ghost stream), run on a heap representing a registry / array of DISTINCT shells: reverse leaves the shells linked in the order of the model's reverse (= rev), shuffle in the order of the model's shuffle on the same random stream (a permutation; exactly length-1 values consumed), relink links them in array order, countTests is the length, addTest the head insertion (registering a shell that is already in the list makes the source's list cyclic -- ex_twice in C02_HeapTie.v -- hence the freshness hypothesis)
+   -------------------------------------------------------------------------------------------------------------- *)
+From CppUVerif Require Import lib.CSem lib.CMem lib.CHeap gen.Gen_HeapC02 C02_HeapTie.
+Local Open Scope Z_scope.
+Theorem C02_layout_is_the_source :
+  off_UtestShell_next_ = Zpos 4 /\
+  cells_UtestShell = Zpos 7 /\
+  off_UtestShellPointerArray_arrayOfTests_ = Z0 /\
+  off_UtestShellPointerArray_count_ = Zpos 1 /\
+  cells_UtestShellPointerArray = Zpos 2 /\ off_TestRegistry_tests_ = Z0.
+Proof. exact layout_is_the_source. Qed.
+Print Assumptions C02_layout_is_the_source.
+
+Theorem C02_src_shell_countTests_spec :
+  forall (bs : list nat) (fuel : nat) (h : heap) (rs : list Z) (p : hptr),
+  tchain h p bs ->
+  bs <> [] ->
+  (length bs <= fuel)%nat ->
+  BinInt.Z.lt (BinInt.Z.of_nat (length bs)) (BinInt.Z.pow (Zpos 2) (Zpos 64)) ->
+  src_shell_countTests fuel h rs p = FOk (BinInt.Z.of_nat (length bs), h, rs).
+Proof. exact src_shell_countTests_spec. Qed.
+Print Assumptions C02_src_shell_countTests_spec.
+
+Theorem C02_src_array_swap_spec :
+  forall (fuel : nat) (h : heap) (rs : list Z) (ba bc : nat) (a a' : list nat) (i1 i2 : nat),
+  array_at h ba bc a ->
+  swap a i1 i2 = Some a' ->
+  exists h' : heap,
+  src_array_swap fuel h rs (HPtr ba Z0) (BinInt.Z.of_nat i1) (BinInt.Z.of_nat i2) = FOk (tt, h', rs) /\
+  array_at h' ba bc a' /\ length h' = length h /\ (forall b : nat, b <> bc -> hblock h' b = hblock h b).
+Proof. exact src_array_swap_spec. Qed.
+Print Assumptions C02_src_array_swap_spec.
+
+Theorem C02_src_array_swap_oob :
+  forall (fuel : nat) (h : heap) (rs : list Z) (ba bc : nat) (a : list nat) (i1 i2 : nat),
+  array_at h ba bc a ->
+  swap a i1 i2 = None -> src_array_swap fuel h rs (HPtr ba Z0) (BinInt.Z.of_nat i1) (BinInt.Z.of_nat i2) = FOob.
+Proof. exact src_array_swap_oob. Qed.
+Print Assumptions C02_src_array_swap_oob.
+
+Theorem C02_src_array_get_spec :
+  forall (fuel : nat) (h : heap) (rs : list Z) (ba bc : nat) (a : list nat) (k : nat),
+  array_at h ba bc a ->
+  src_array_get fuel h rs (HPtr ba Z0) (BinInt.Z.of_nat k) =
+  FOk (match nth_error a k with
+  | Some b => HPtr b Z0
+  | None => HNull
+  end, h, rs).
+Proof. exact src_array_get_spec. Qed.
+Print Assumptions C02_src_array_get_spec.
+
+Theorem C02_src_array_relinkTestsInOrder_spec :
+  forall (fuel : nat) (h : heap) (rs : list Z) (ba bc : nat) (a : list nat),
+  array_at h ba bc a ->
+  BinInt.Z.lt (BinInt.Z.of_nat (length a)) (BinInt.Z.pow (Zpos 2) (Zpos 64)) ->
+  NoDup a ->
+  Forall (shell_in h) a ->
+  ~ In ba a ->
+  ~ In bc a ->
+  (length a < fuel)%nat ->
+  exists h' : heap,
+  src_array_relinkTestsInOrder fuel h rs (HPtr ba Z0) = FOk (tt, h', rs) /\
+  relink a = Some a /\ tlist h' (hd_ptr a) a /\ array_at h' ba bc a /\ relinked h a h'.
+Proof. exact src_array_relinkTestsInOrder_spec. Qed.
+Print Assumptions C02_src_array_relinkTestsInOrder_spec.
+
+Theorem C02_src_array_reverse_spec :
+  forall (fuel : nat) (h : heap) (rs : list Z) (ba bc : nat) (a : list nat),
+  array_at h ba bc a ->
+  BinInt.Z.lt (BinInt.Z.of_nat (length a)) (BinInt.Z.pow (Zpos 2) (Zpos 64)) ->
+  NoDup a ->
+  Forall (shell_in h) a ->
+  ~ In ba a ->
+  ~ In bc a ->
+  (length a < fuel)%nat ->
+  exists h' : heap,
+  src_array_reverse fuel h rs (HPtr ba Z0) = FOk (tt, h', rs) /\
+  reverse a = Some (rev a) /\
+  array_at h' ba bc (rev a) /\ tlist h' (hd_ptr (rev a)) (rev a) /\ permuted h bc (rev a) h'.
+Proof. exact src_array_reverse_spec. Qed.
+Print Assumptions C02_src_array_reverse_spec.
+
+Theorem C02_src_array_shuffle_spec :
+  forall (fuel : nat) (h : heap) (rs : list Z) (ba bc : nat) (a : list nat) (seed : N) (seedZ : Z),
+  array_at h ba bc a ->
+  BinInt.Z.lt (BinInt.Z.of_nat (length a)) (BinInt.Z.pow (Zpos 2) (Zpos 64)) ->
+  NoDup a ->
+  Forall (shell_in h) a ->
+  ~ In ba a ->
+  ~ In bc a ->
+  (length a - 1 <= length rs)%nat ->
+  Forall (fun r : Z => BinInt.Z.le Z0 r /\ BinInt.Z.lt r (BinInt.Z.pow (Zpos 2) (Zpos 31)))
+  (firstn (length a - 1) rs) ->
+  (length a < fuel)%nat ->
+  exists (a' : list nat) (h' : heap),
+  shuffle seed (map BinInt.Z.to_N rs) a =
+  Some
+  (a', match a with
+  | [] => []
+  | _ :: _ => [seed mod UINT_MOD]
+  end, map BinInt.Z.to_N (firstn (length a - 1) rs)) /\
+  Permutation a' a /\
+  src_array_shuffle fuel h rs (HPtr ba Z0) seedZ = FOk (tt, h', skipn (length a - 1) rs) /\
+  array_at h' ba bc a' /\ tlist h' (hd_ptr a') a' /\ permuted h bc a' h'.
+Proof. exact src_array_shuffle_spec. Qed.
+Print Assumptions C02_src_array_shuffle_spec.
+
+Theorem C02_src_registry_addTest_spec :
+  forall (fuel : nat) (h : heap) (rs : list Z) (br : nat) (bs : list nat) (b : nat),
+  registry_at h br bs ->
+  shell_in h b ->
+  ~ In b bs ->
+  b <> br ->
+  exists h' : heap,
+  src_registry_addTest fuel h rs (HPtr br Z0) (HPtr b Z0) = FOk (tt, h', rs) /\
+  registry_at h' br (b :: bs) /\
+  hblock h' b = upd (hblock h b) 4 (VPtr (hd_ptr bs)) /\
+  hblock h' br = upd (hblock h br) 0 (VPtr (HPtr b Z0)) /\
+  length h' = length h /\ (forall b' : nat, b' <> b -> b' <> br -> hblock h' b' = hblock h b').
+Proof. exact src_registry_addTest_spec. Qed.
+Print Assumptions C02_src_registry_addTest_spec.
+
+Theorem C02_src_registry_getTestWithNext_spec :
+  forall (fuel : nat) (h : heap) (rs : list Z) (br : nat) (bs : list nat) (q : hptr),
+  registry_at h br bs ->
+  (length bs < fuel)%nat -> src_registry_getTestWithNext fuel h rs (HPtr br Z0) q = FOk (with_next q bs, h, rs).
+Proof. exact src_registry_getTestWithNext_spec. Qed.
+Print Assumptions C02_src_registry_getTestWithNext_spec.
+
+Theorem C02_src_registry_countTests_spec :
+  forall (fuel : nat) (h : heap) (rs : list Z) (br : nat) (bs : list nat),
+  registry_at h br bs ->
+  (length bs <= fuel)%nat ->
+  BinInt.Z.lt (BinInt.Z.of_nat (length bs)) (BinInt.Z.pow (Zpos 2) (Zpos 64)) ->
+  src_registry_countTests fuel h rs (HPtr br Z0) = FOk (BinInt.Z.of_nat (length bs), h, rs).
+Proof. exact src_registry_countTests_spec. Qed.
+Print Assumptions C02_src_registry_countTests_spec.
